@@ -1166,7 +1166,29 @@ impl C07 {
         };
         // two more semantic computations in the same compilation (each re-materialises a named operand, with its own
         // recursive helpers when the operand is recursive): Exclude<T, never> is T itself
-        let extra: String = xs.iter().map(|n| format!("; I{}: Exclude<{}, never>", n, n)).collect();
+        let mut extra: String = xs.iter().map(|n| format!("; I{}: Exclude<{}, never>", n, n)).collect();
+        // ... and two self-recursive object types with different bodies, each re-materialised on its own (the recursive
+        // helper names the engine generates must stay unique across all materialisations of one compilation)
+        let h = fp(&serde_json::to_string(&(&case.x, &case.y)).unwrap_or_default());
+        let leafs: [(&str, D); 4] = [("string", D::Str), ("number", D::Num), ("boolean", D::Bool), ("\"a\"", D::StrLit("a".into()))];
+        let (l1, l2) = (&leafs[(h % 4) as usize], &leafs[((h / 4) % 4) as usize]);
+        let shape = (h / 16) % 3;
+        let mut env2 = case.env.clone();
+        let (il, im) = (env2.defs.len(), env2.defs.len() + 1);
+        let link = |i: usize| -> (String, D, bool) {
+            match shape {
+                0 => ("{} | null".into(), D::Union(vec![D::Ref(i), D::Null]), false),
+                1 => ("{}[]".into(), D::Array(Box::new(D::Ref(i))), false),
+                _ => ("{}".into(), D::Ref(i), true),
+            }
+        };
+        let (lt, ld, lopt) = link(il);
+        let (mt, md, mopt) = link(im);
+        env2.defs.push(("RecL".into(), D::Object { props: vec![Prop { key: "next".into(), ty: ld, optional: lopt }, Prop { key: "v".into(), ty: l1.1.clone(), optional: false }], index: None }));
+        env2.defs.push(("RecM".into(), D::Object { props: vec![Prop { key: "prev".into(), ty: md, optional: mopt }, Prop { key: "w".into(), ty: l2.1.clone(), optional: false }], index: None }));
+        text.push_str(&format!("\ntype RecL = {{ next{}: {}; v: {} }};", if lopt { "?" } else { "" }, lt.replace("{}", "RecL"), l1.0));
+        text.push_str(&format!("\ntype RecM = {{ prev{}: {}; w: {} }};", if mopt { "?" } else { "" }, mt.replace("{}", "RecM"), l2.0));
+        extra.push_str("; IRecL: Exclude<RecL | string, string>; IRecM: Exclude<RecM | string, string>");
         text.push_str(&format!("\nexport const Parsers = parse.buildParsers<{{ R: {}{} }}>();\n", expr, extra));
         let mut scratch = Outcome::default();
         let code = match crate::c01::compile_case(&text, &mut scratch, ctx, "C07") {
@@ -1192,6 +1214,22 @@ impl C07 {
         for n in &xs {
             qs.push(json!({"q":"validateMany","parser":format!("I{}", n),"values": case.values.iter().map(|v| v.to_tagged()).collect::<Vec<_>>(), "optsList":[null]}));
         }
+        let rec_roots: Vec<(String, D)> = vec![("IRecL".into(), D::Ref(il)), ("IRecM".into(), D::Ref(im))];
+        let mut rec_values: Vec<JsVal> = vec![];
+        {
+            let seed_data: Vec<u32> = (0..400u32).map(|i| (h as u32).wrapping_mul(2654435761).wrapping_add(i.wrapping_mul(40503)).rotate_left(i % 31)).collect();
+            let mut sv = Src::new(&seed_data);
+            for (_, d) in &rec_roots {
+                for (v, _) in crate::c01::gen_values(&env2, d, &mut sv, Mode::Open, 4, 4, 1) {
+                    if in_sem_universe(&v) && !rec_values.contains(&v) {
+                        rec_values.push(v);
+                    }
+                }
+            }
+        }
+        for (n, _) in &rec_roots {
+            qs.push(json!({"q":"validateMany","parser":n,"values": rec_values.iter().map(|v| v.to_tagged()).collect::<Vec<_>>(), "optsList":[null]}));
+        }
         let resp = match crate::c01::node_case(ctx, Some(&code), qs) {
             Ok(r) => r,
             Err(e) => {
@@ -1204,6 +1242,34 @@ impl C07 {
             return;
         }
         out.label("source_level:ran");
+        // the two recursive re-materialisations validate like the recursive types themselves
+        {
+            let r2 = Ref::new(&env2, Mode::Open);
+            for (qi, (n, d)) in rec_roots.iter().enumerate() {
+                let m = &resp["results"][1 + roots.len() + qi]["m"];
+                for (j, v) in rec_values.iter().enumerate() {
+                    let got = match m[j][0].as_i64() {
+                        Some(1) => true,
+                        Some(0) => false,
+                        _ => continue,
+                    };
+                    let expected = r2.member(d, v);
+                    if expected == Tri::Unspec {
+                        continue;
+                    }
+                    out.evals += 1;
+                    if Tri::from_bool(got) != expected {
+                        out.mismatch(
+                            ctx,
+                            "source_level:recursive_rematerialisation",
+                            format!("the validator {} (a recursive type passed through Exclude) {} a value it should {}", n, if got { "accepts" } else { "rejects" }, if got { "reject" } else { "accept" }),
+                            json!({"program": text, "value": v, "validate": got, "parser": n}),
+                        );
+                        return;
+                    }
+                }
+            }
+        }
         // the identity computations: Exclude<T, never> validates like T
         for (qi, (n, d)) in roots.iter().enumerate() {
             let m = &resp["results"][1 + qi]["m"];
